@@ -7,6 +7,7 @@ godebug default=go1.16
 require (
 	github.com/coreos/go-semver v0.3.0
 	github.com/gogo/protobuf v1.3.1
+	github.com/golang/protobuf v1.3.4
 	github.com/pingcap/kvproto v0.0.0-20210604082642-dda0a102bc6a
 	github.com/pingcap/log v0.0.0-20210317133921-96f4fcab92a4
 	github.com/tikv/pd v0.0.0
@@ -27,7 +28,6 @@ require (
 	github.com/dgrijalva/jwt-go v3.2.0+incompatible // indirect
 	github.com/docker/go-units v0.4.0 // indirect
 	github.com/dustin/go-humanize v0.0.0-20171111073723-bb3d318650d4 // indirect
-	github.com/golang/protobuf v1.3.4 // indirect
 	github.com/golang/snappy v0.0.1 // indirect
 	github.com/google/btree v1.0.0 // indirect
 	github.com/google/uuid v1.0.0 // indirect
